@@ -23,6 +23,7 @@ def main():
     ap.add_argument('--validate')
     ap.add_argument('--ids')
     ap.add_argument('--repo', default='/repo')
+    ap.add_argument('--control', action='store_true', help='behaviour-preserving change: demo must exit 0 with and without it')
     a = ap.parse_args()
     patch = os.path.abspath(os.path.join(a.seed, 'patch.diff'))
     demo = os.path.abspath(os.path.join(a.seed, 'demo.py'))
@@ -44,7 +45,7 @@ def main():
         out['demo_clean_exit'] = c0
         out['demo_patched_exit'] = c1
         out['baseline_with_patch'] = ob.strip().splitlines()[0] if ob.strip() else ''
-        out['valid'] = (c0 == 0 and c1 != 0 and cb == 0)
+        out['valid'] = (c0 == 0 and (c1 == 0 if a.control else c1 != 0) and cb == 0)
         print(f'validate: demo clean={c0} patched={c1} baseline_exit={cb} -> '
               f'{"VALID" if out["valid"] else "INVALID"}')
         if c0 != 0:
@@ -74,7 +75,7 @@ def main():
         for pid, h in hits.items():
             print(f'  {pid} exit={h["exit"]} {h["rules"]}: {h["first"][:220]}')
         if not hits:
-            print('  NOT DETECTED by any check')
+            print('  silent: no check reports it' if a.control else '  NOT DETECTED by any check')
     finally:
         shutil.rmtree(d, ignore_errors=True)
     print(json.dumps({k: v for k, v in out.items() if k != 'detected_by'}))
